@@ -206,7 +206,7 @@ theorem construct_toArgs (b : Obj) :
               pre := b.pre, post := b.post, dev := b.dev, loc := b.loc }, ?_, rfl, ?_⟩
     · simp [construct, Obj.toArgs, hc, mkPkg, initBase_nat, argIntOr0_nat, nonNeg_nat, argOptStr_optArg,
         bind, Except.bind, pure, Except.pure]
-    · simp [akey, hc, pkgKey]
+    · simp [akey, hc, pkgKey, pkgPre, pkgPost, pkgDev, pkgLoc]
 
 theorem vcompare_congr {a b b' : Obj} (hc : b'.cls = b.cls) (hk : akey b' = akey b) :
     vcompare a (.obj b') = vcompare a (.obj b) := by
